@@ -264,6 +264,11 @@ def main():
         'explanation': P.get('explanation', ''),
         'exhaustive': False,
     }
+    if a.tier == 'thorough' and not os.environ.get('PYVC_NO_MATRIX'):
+        coverage['mutant_kill_matrix'] = kill_matrix(prop)
+        missed = [m['change'] for m in coverage['mutant_kill_matrix'] if m['outcome'] == 'missed']
+        if missed:
+            print('SELF-CHECK: seeded changes not detected by this check: %s' % ', '.join(missed))
     ev = {'property_id': prop, 'tier': a.tier, 'seed': seed, 'level': level_out, 'coverage': coverage,
           'assumptions': registry.ASSUMPTIONS + P.get('assumptions', []), 'wall_s': round(time.time() - t0, 2),
           'violations': nviol}
@@ -279,6 +284,40 @@ def main():
         print('checker error: zero obligations generated')
         return 3
     return 1 if nviol else 0
+
+
+def kill_matrix(prop):
+    """thorough tier: the recorded seeded changes of this property (seeded/<prop>-m*/patch.diff) are applied, one at a
+    time, to a scratch copy of the current working tree of the repository and the quick check is run against that
+    copy; a check that stays green on a change known to break the property is reported in the evidence."""
+    import glob
+    import shutil
+    import tempfile
+    out = []
+    repo = os.environ.get('PYVC_REPO', '/repo')
+    for d in sorted(glob.glob(os.path.join(ROOT, 'seeded', prop + '-m*'))):
+        name = os.path.basename(d)
+        scr = tempfile.mkdtemp(prefix='pyvc-km-')
+        try:
+            shutil.copytree(os.path.join(repo, 'pyasn1'), os.path.join(scr, 'pyasn1'))
+            p = subprocess.run(['patch', '-p1', '-s', '-i', os.path.join(d, 'patch.diff')], cwd=scr, capture_output=True,
+                               text=True)
+            if p.returncode != 0:
+                out.append({'change': name, 'outcome': 'not-applicable', 'why': 'patch does not apply to this tree'})
+                continue
+            env = dict(os.environ, PYVC_REPO=scr, PYVC_EVIDENCE_DIR=os.path.join(scr, 'evidence'),
+                       PYVC_REPLAY_DIR=os.path.relpath(os.path.join(scr, 'replay'), ROOT), PYVC_NO_MATRIX='1')
+            t = time.time()
+            q = subprocess.run([sys.executable, os.path.join(ROOT, 'checks', 'run.py'), prop, '--tier', 'quick'], cwd=ROOT,
+                               env=env, capture_output=True, text=True, timeout=1800)
+            by = sorted({l.strip().split(' refuted')[0].split(':')[0][:110] for l in q.stdout.split('\n')
+                         if l.startswith('   ')})[:4]
+            out.append({'change': name, 'outcome': {1: 'detected', 0: 'missed'}.get(q.returncode, 'undecided(exit %d)' %
+                                                                                   q.returncode),
+                        'by': by, 'wall_s': round(time.time() - t, 1)})
+        finally:
+            shutil.rmtree(scr, ignore_errors=True)
+    return out
 
 
 def explain_failure(known, prop, f):
